@@ -170,6 +170,7 @@ type HarnessSpec struct {
 	Reach      []string         `json:"reach,omitempty"`
 	Bounds     string           `json:"bounds,omitempty"`
 	TimeoutSec int              `json:"timeout_s,omitempty"`
+	Solver     string           `json:"solver,omitempty"`
 }
 
 type harnessRun struct {
@@ -200,6 +201,20 @@ type harnessRun struct {
 	wall          float64
 	exhausted     bool
 	samples       []map[string]interface{}
+	forks         map[string]int
+}
+
+func (h *harnessRun) noteFork(m *machine) {
+	if !h.eng.verbose || m.lastIf == nil {
+		return
+	}
+	key := m.lastIf.Parent().Name() + "@" + posString(h.eng.prog, m.lastIf.Cond.Pos())
+	h.mu.Lock()
+	if h.forks == nil {
+		h.forks = map[string]int{}
+	}
+	h.forks[key]++
+	h.mu.Unlock()
 }
 
 func (h *harnessRun) noteUnknownBranch() {
@@ -327,7 +342,11 @@ func (e *engine) explore(h *harnessRun, opts exploreOpts) {
 	stop := false
 	maxViol := 3
 	worker := func(id int) {
-		solver := NewSolver(e.solverBin, e.timeoutMs, e.seed)
+		bin := e.solverBin
+		if h.spec.Solver != "" {
+			bin = h.spec.Solver
+		}
+		solver := NewSolver(bin, e.timeoutMs, e.seed)
 		defer func() {
 			mu.Lock()
 			h.solver.Sat += solver.stats.Sat
